@@ -1,6 +1,7 @@
 package simharness
 
 import (
+	"context"
 	"errors"
 	"fmt"
 	"io"
@@ -33,8 +34,31 @@ type simReader struct {
 	yield bool
 }
 
+// stubError returns the error value a stub fails with. The value varies with the plan so
+// that the library cannot get away with treating particular error values (io.EOF,
+// context.Canceled, wrapped sentinels) specially.
+func stubError(what string, variant int) error {
+	switch variant % 6 {
+	case 1:
+		return fmt.Errorf("%s: %w", what, context.Canceled)
+	case 2:
+		return fmt.Errorf("%s: %w", what, io.EOF)
+	case 3:
+		return fmt.Errorf("%s: %w", what, context.DeadlineExceeded)
+	case 4:
+		return fmt.Errorf("%s: %w", what, io.ErrUnexpectedEOF)
+	case 5:
+		return &stubErr{what}
+	}
+	return fmt.Errorf("%s: %w", what, errors.New("injected failure"))
+}
+
+type stubErr struct{ what string }
+
+func (e *stubErr) Error() string { return e.what + ": injected failure (custom type)" }
+
 func newSimReader(data []byte, plan ReaderPlan, yield bool) *simReader {
-	return &simReader{plan: plan, data: data, yield: yield, Err: fmt.Errorf("reader stub: %w", errors.New("injected read failure"))}
+	return &simReader{plan: plan, data: data, yield: yield, Err: stubError("reader stub", plan.FailAt+int(plan.ChunkSeed))}
 }
 
 func (r *simReader) Read(p []byte) (int, error) {
@@ -85,6 +109,8 @@ type WriterPlan struct {
 	FailAt int  `json:"fail_at"` // index of the Write call that fails; -1 never
 	Torn   bool `json:"torn"`    // the failing write accepts half of its bytes
 	Short  bool `json:"short"`   // write #FailAt accepts half of its bytes and returns a nil error (one-off)
+	Once   bool `json:"once"`    // only write #FailAt fails; later writes succeed again (transient failure)
+	ErrVariant int `json:"err_variant"`
 }
 
 var noWriterFault = WriterPlan{FailAt: -1}
@@ -107,7 +133,7 @@ type simWriter struct {
 }
 
 func newSimWriter(plan WriterPlan, yield bool) *simWriter {
-	return &simWriter{plan: plan, yield: yield, Err: errors.New("injected write failure")}
+	return &simWriter{plan: plan, yield: yield, Err: stubError("writer stub", plan.FailAt+plan.ErrVariant)}
 }
 
 func (w *simWriter) Write(p []byte) (int, error) {
@@ -131,7 +157,7 @@ func (w *simWriter) Write(p []byte) (int, error) {
 		w.Refused += len(p) - acc
 		return acc, nil
 	}
-	if !w.plan.Short && w.plan.FailAt >= 0 && (idx == w.plan.FailAt || w.Fired) {
+	if !w.plan.Short && w.plan.FailAt >= 0 && (idx == w.plan.FailAt || (w.Fired && !w.plan.Once)) {
 		first := !w.Fired
 		w.Fired = true
 		acc := 0
@@ -162,12 +188,14 @@ type Visit struct {
 
 type CbPlan struct {
 	FailAt int `json:"fail_at"` // visit index at which the callback fails / the consumer breaks; -1 never
+	ErrVariant int `json:"err_variant"`
 }
 
 var noCbFault = CbPlan{FailAt: -1}
 
 type simCallback struct {
 	plan   CbPlan
+	ptrs   []*gtree.WalkerNode // every node handed to the callback / loop body, re-read after the walk
 	visits []Visit
 	Fired  bool
 	Err    error
@@ -176,7 +204,21 @@ type simCallback struct {
 }
 
 func newSimCallback(plan CbPlan, yield bool) *simCallback {
-	return &simCallback{plan: plan, yield: yield, Err: errors.New("injected callback failure")}
+	// the callback's error: exact sentinels included (a walk must hand back whatever it gets)
+	var err error
+	switch (plan.FailAt + plan.ErrVariant) % 5 {
+	case 1:
+		err = io.EOF
+	case 2:
+		err = context.Canceled
+	case 3:
+		err = &stubErr{"callback stub"}
+	case 4:
+		err = fmt.Errorf("callback stub: %w", io.ErrUnexpectedEOF)
+	default:
+		err = errors.New("injected callback failure")
+	}
+	return &simCallback{plan: plan, yield: yield, Err: err}
 }
 
 func visitOf(wn *gtree.WalkerNode) Visit {
@@ -193,6 +235,7 @@ func (cb *simCallback) fn(wn *gtree.WalkerNode) error {
 	}
 	idx := len(cb.visits)
 	cb.visits = append(cb.visits, v)
+	cb.ptrs = append(cb.ptrs, wn)
 	if cb.Fired {
 		cb.after++
 	}
@@ -201,4 +244,19 @@ func (cb *simCallback) fn(wn *gtree.WalkerNode) error {
 		return cb.Err
 	}
 	return nil
+}
+
+// staleNodes re-reads every WalkerNode the walk handed out and reports the first whose
+// facts are no longer what they were at its visit (a caller may keep the nodes).
+func (cb *simCallback) staleNodes() string {
+	for i, wn := range cb.ptrs {
+		if wn == nil || i >= len(cb.visits) {
+			continue
+		}
+		now := visitOf(wn)
+		if visitKey(now) != visitKey(cb.visits[i]) {
+			return fmt.Sprintf("node of visit %d was %s at its visit and reads %s after the walk", i, visitKey(cb.visits[i]), visitKey(now))
+		}
+	}
+	return ""
 }
